@@ -346,19 +346,26 @@ def unknown_command(kind, pre="none"):
 
 # ---- client side: abort frame -> SdoAbortedError(code) ---------------------------------------------
 class _AbortingServer:
-    """answers normally (reference server) until step `at`, then with an abort frame carrying `code`"""
+    """answers normally (reference server) until step `at`, then with an abort frame carrying `code`.  After its
+    abort the server has no transfer any more: like any CiA 301 server it answers a further non-initiate request
+    with abort 0x05040001 (and a client abort with nothing)."""
 
     def __init__(self, inner, at, code):
         self.inner, self.at, self.code, self.n = inner, at, code, 0
+        self.after = []          # requests received after the abort
 
     def on_request(self, frame):
         f = sx.items(frame)
-        resps = self.inner.on_request(frame)
         k = self.n
         self.n += 1
+        if k < self.at:
+            return self.inner.on_request(frame)
         if k == self.at:
             return [sx.mkbytes([0x80, 0x00, 0x20, 0x00] + [sx.byte_of(self.code, i) for i in range(4)])]
-        return resps
+        self.after.append(frame)
+        if bool(f[0] == 0x80):
+            return []
+        return [sx.mkbytes([0x80, 0x00, 0x20, 0x00, 0x01, 0x00, 0x04, 0x05])]
 
 
 def client_abort(op, at):
@@ -396,6 +403,17 @@ def client_abort(op, at):
     except E.SdoAbortedError as e:
         sx.observe("code", e.code)
         sx.prove(e.code == code, "SdoAbortedError exposes the received code", tag + "/code")
+        import gc
+        gc.collect()             # finalizers of half-used stream objects run now
+        sx.observe("after", [sx.mkbytes(sx.items(x)) for x in srv.after])
+        if op == "block-download":
+            # inside a sub-block the client does not listen: the remaining segments (sequence numbers 2, 3) of the
+            # sub-block may still follow the abort; the end-of-transfer request may not
+            late = [x for x in srv.after if not bool(((sx.items(x)[0] & 0x7F) >= 1) & ((sx.items(x)[0] & 0x7F) <= 3))]
+        else:
+            late = list(srv.after)
+        sx.prove(len(late) == 0, "the client went on sending frames of the transfer the server had aborted",
+                 tag + "/frames-after-abort")
         sx.reach("client-abort")
         return
     except Exception as e:
